@@ -155,7 +155,7 @@ def pushforward_case(dname, cfg, rows, seed, m):
 
         xs = s[r].numpy()
         order = np.argsort(xs)
-        F, tot = cdf_1d(lp1, xs[order], n=2 ** 16, xmax=200.0)
+        F, tot = cdf_1d(lp1, xs[order], n=2 ** 17, xmax=1e5)
         if abs(tot - 1) > (1e-4 if dt == torch.float64 else 1e-3):
             out.append(("pushforward", "density not normalised (C03's subject)", "total mass %.6g" % tot))
             return out
